@@ -30,14 +30,12 @@ extern ssize_t mpt_memcpy(ssize_t len,
 	int8_t	*source, *target;
 	size_t	total = 0, left, space;
 	
-	if (!ndest || !nsrc)
-		return 0;
+	/* missing parts are empty data */
+	source = nsrc ? src->iov_base : 0;
+	left   = nsrc ? src->iov_len  : 0;
 	
-	source = src->iov_base;
-	left   = src->iov_len;
-	
-	target = dest->iov_base;
-	space  = dest->iov_len;
+	target = ndest ? dest->iov_base : 0;
+	space  = ndest ? dest->iov_len  : 0;
 	
 	/* check maximum size */
 	if (len > 0) {
@@ -48,6 +46,9 @@ extern ssize_t mpt_memcpy(ssize_t len,
 		if (len > (ssize_t) total) return -2;
 	}
 	total = 0;
+	
+	if (!ndest || !nsrc)
+		return 0;
 	
 	while (len) {
 		size_t copy = len;
